@@ -50,6 +50,9 @@ type BlockSpec struct {
 	ID, Prev string
 	Height   uint32
 	Txs      []TxSpec
+	// TS / Bits override the default header time (genesis + height) and difficulty (PowLimitBits);
+	// they travel outside the block specification (op `deliverw <ts> <bits> <block>`).
+	TS, Bits uint32
 }
 
 // PadHash is the full hash of a harness-chosen short id (id bytes, zero padded).
@@ -318,6 +321,12 @@ func (n *Node) Build(bs *BlockSpec, verify bool) (*types.Block, error) {
 	blk := &types.Block{Header: ctypes.Header{
 		Version: 0, Previous: prev, Timestamp: n.Genesis.Timestamp + bs.Height,
 		Bits: n.Params.PowConfiguration.PowLimitBits, Height: bs.Height}}
+	if bs.TS != 0 {
+		blk.Header.Timestamp = bs.TS
+	}
+	if bs.Bits != 0 {
+		blk.Header.Bits = bs.Bits
+	}
 	var hashes []common.Uint256
 	for i := range bs.Txs {
 		tx, err := n.BuildTx(&bs.Txs[i], bs.Height)
